@@ -20,7 +20,7 @@ EXTENDS Integers, FiniteSets, Sequences, TLC, Json
 CONSTANTS
   ExSeq,        \* sequence of extractor names in dispatch order, e.g. <<"e1","e2">>
   MaxNodes,     \* max number of present tree nodes
-  FileKinds,    \* kinds offered to non-.gitignore file slots: subset of {"file","big","at","link","linkbig","special"}
+  FileKinds,    \* kinds offered to non-.gitignore file slots: subset of {"file","big","at","link","linkbig","linkdir","special"} ("linkdir": a symlink to a directory; never descended into, never required by an extractor)
   UseList, UseRe, UseGlob,  \* BOOLEAN: the skip-list / skip-regex / skip-glob options may be set
   UseGit,       \* BOOLEAN: .gitignore files may exist and UseGitignore may be on
   MaxPaths,     \* 0: whole-tree scans only; n: up to n explicitly requested paths
@@ -183,7 +183,7 @@ ChooseCfg ==
         ps \in PathChoices,
         isub \in BOOLEAN,
         lim \in (IF UseLimit THEN BOOLEAN ELSE {FALSE}),
-        rl \in (IF FileKinds \cap {"link", "linkbig"} # {} THEN BOOLEAN ELSE {FALSE}),
+        rl \in (IF FileKinds \cap {"link", "linkbig", "linkdir"} # {} THEN BOOLEAN ELSE {FALSE}),
         pm \in Perms, mi \in InodeLimits, ft \in Fatal, nr \in Roots,
         fs \in UpTo({x \in FaultSites : x.op \in FaultOps}, MaxFaults),
         ck \in CancelKinds, cn \in 1..3 :
@@ -207,6 +207,7 @@ ChooseCfg ==
                 [] OTHER -> f.s \in FileSlots
   /\ \E r \in [Ex -> SUBSET FileSlots] :
        /\ req' = r
+       /\ \A e \in Ex : \A s \in r[e] : tree[s] # "linkdir"          \* what extracting a symlink to a directory means is not specified
        /\ \A f \in cfg'.faults : f.op = "opengi" => \A e \in Ex : f.s \notin r[e]   \* a .gitignore that cannot be opened is not also an extraction target
        /\ LET pairs == {x \in Ex \X Slot : x[2] \in r[x[1]]} IN
           \E o \in [pairs -> Outcomes] : out' = [x \in Ex \X Slot |-> IF x \in pairs THEN o[x] ELSE "ok"]
